@@ -408,7 +408,7 @@ func genIncompatible(rng *rand.Rand) (target reflect.Type, source reflect.Value,
 }
 
 func c20(c *wk.Ctx) {
-	c.Note("rule", "streams: compat = a random pair (S,T) of structurally compatible Go types generated together (same-signedness integer widening incl. int/uint, float32->float64, string, bool, slices, maps with scalar keys, structs with permuted field order and varied letter case, depth <= 4/6) and a random edge-biased value s of S: ConvertFrom(&t, s) must succeed and equal the reference conversion, ConvertFrom(&s2, t) must recover s, a second source type with the same fields in another order must convert into the same target type with the same result, and DecodeFrom (the Proxy.Call2 path) must give the same t from the encoding of s, also right after a DecodeFrom of the same wire type that failed on a truncated encoding; incompat = pairs that must be refused (bool/int, string/number, float/int, slice/map, container/scalar, struct/container), bare and nested in a slice, map value or struct field. Distinct non-trivial = distinct pair shapes containing a composite or a width change.")
+	c.Note("rule", "streams: compat = a random pair (S,T) of structurally compatible Go types generated together (same-signedness integer widening incl. int/uint, float32->float64, string, bool, slices, maps with scalar keys, structs with permuted field order and varied letter case, depth <= 4/6) and a random edge-biased value s of S: ConvertFrom(&t, s) must succeed and equal the reference conversion, ConvertFrom(&s2, t) must recover s, the same conversion into a destination that already holds another value must give the same result (pairs without maps: entries are added to a destination map that already has some), a second source type with the same fields in another order must convert into the same target type with the same result, and DecodeFrom (the Proxy.Call2 path) must give the same t from the encoding of s, also right after a DecodeFrom of the same wire type that failed on a truncated encoding; incompat = pairs that must be refused (bool/int, string/number, float/int, slice/map, container/scalar, struct/container), bare and nested in a slice, map value or struct field. Distinct non-trivial = distinct pair shapes containing a composite or a width change.")
 	depth := c.Pick(4, 6)
 	c.Cases("compat", c.Pick(100000, 6000000), func(i int, rng *rand.Rand) {
 		n := genNode(rng, 1+rng.Intn(depth))
@@ -446,6 +446,41 @@ func c20(c *wk.Ctx) {
 			detail["back"] = fmt.Sprintf("%+v err=%v", s2.Elem().Interface(), err)
 			c.Viol("compat", i, "back=differs/"+cl, "converting back does not recover the source", detail)
 			return
+		}
+		// a destination that already holds another value of the target type (a reused variable, a
+		// pre-sized buffer): after the conversion it equals the source all the same
+		// (not for pairs with maps: ConvertFrom adds the converted entries to a destination map that already
+		// has some, like encoding/json does; the statement says nothing about a destination's previous content,
+		// so only what the code guarantees for slices, structs and scalars - full replacement - is demanded)
+		if i%2 == 1 && !n.has("map") {
+			// the destination first receives three other values through ConvertFrom itself (so that lengths
+			// and capacities of its slices are whatever the implementation leaves behind), then the source
+			tUsed := reflect.New(tT)
+			var s0 reflect.Value
+			for k := 0; k < 3; k++ {
+				s0 = reflect.New(sT).Elem()
+				b0 := []int{60, 6, 30}[k]
+				n.gen(rng, s0, &b0)
+				if wk.Try2(func() { conversion.ConvertFrom(tUsed.Interface(), s0.Interface()) }) {
+					break
+				}
+			}
+			pv, stack = wk.Try(func() { err = conversion.ConvertFrom(tUsed.Interface(), s.Interface()) })
+			if pv != nil {
+				c.Viol("compat", i, "reused-destination=panic/"+wk.PanicSite(stack), fmt.Sprintf("ConvertFrom into a used destination panicked: %v", pv), detail)
+				return
+			}
+			if err != nil {
+				c.Viol("compat", i, "reused-destination=refused/"+cl, "conversion into a destination that already held a value is refused: "+err.Error(), detail)
+				return
+			}
+			if !same(tUsed.Elem(), want) {
+				detail["previous_content"] = fmt.Sprintf("%+v", s0.Interface())
+				detail["got"] = fmt.Sprintf("%+v", tUsed.Elem().Interface())
+				c.Viol("compat", i, "reused-destination=differs/"+cl, "converted into a destination that already held another value, the result differs from the source", detail)
+				return
+			}
+			c.Count("conversions_into_a_used_destination", 1)
 		}
 		// a second, differently laid out source type converted into the SAME target type
 		if n.has("struct") {
